@@ -28,6 +28,7 @@ import (
 type c28Prog struct {
 	Chain *rmCase `json:"chain,omitempty"`
 	Raw   string  `json:"raw,omitempty"`
+	Tree  *c28N   `json:"tree,omitempty"` // nested program with a statically known fork tree
 }
 
 type c28Case struct {
@@ -106,15 +107,18 @@ func c28Src(p c28Prog, idx int) string {
 	if p.Chain != nil {
 		return strings.ReplaceAll(rmSource(*p.Chain), "rmw", fmt.Sprintf("rmw%d", idx))
 	}
+	if p.Tree != nil {
+		return p.Tree.src(fmt.Sprintf("p%d", idx))
+	}
 	return p.Raw
 }
 
 // registrations made by the command of a process while it runs
 func c28Cost(k string) uint64 {
 	switch k {
-	case "f0", "f1", "f7":
+	case "f0", "f1", "f7", "s0":
 		return 3 // function fork + `out $1` + `return K`
-	case "g0", "g1", "g7":
+	case "g0", "g1", "g7", "b0", "gs0":
 		return 4 // function fork + `<stdin>` + `out $1` + `return K`
 	}
 	return 0
@@ -142,7 +146,7 @@ func (c28) Run(raw json.RawMessage) Result {
 	exact := true
 	for i, p := range c.Progs {
 		o.Src = append(o.Src, c28Src(p, i))
-		if p.Chain == nil {
+		if p.Chain == nil && p.Tree == nil {
 			exact = false
 		}
 	}
@@ -259,11 +263,20 @@ func (c28) Run(raw json.RawMessage) Result {
 		}
 		progs = append(progs, "("+rmModeCoq(p.Chain.Mode)+", "+rmProgCoq(*p.Chain)+", "+coqlit.List(costs)+", "+coqlit.N(c28Base(p.Chain.Mode))+")")
 	}
-	coq := coqlit.Record("k_progs", coqlit.List(progs), "k_exact", coqlit.Bool(exact && !o.Timeout),
+	trees := []string{}
+	for _, p := range c.Progs {
+		if p.Tree != nil {
+			trees = append(trees, p.Tree.tree(true)) // root: the harness' own F_FUNCTION fork
+		}
+	}
+	coq := coqlit.Record("k_progs", coqlit.List(progs), "k_trees", coqlit.List(trees), "k_exact", coqlit.Bool(exact && !o.Timeout),
 		"k_issued", coqlit.N(uint64(o.Issued)), "k_leaked", coqlit.N(uint64(o.Leaked)), "k_dup", coqlit.Bool(o.Dup || o.Stale))
 	class := fmt.Sprintf("batch%d", len(c.Progs))
 	if !exact {
 		class += "/raw"
+	}
+	if len(trees) > 0 {
+		class += "/tree"
 	}
 	if c.Yield != 0 {
 		class += "/yield"
@@ -289,6 +302,28 @@ func (c28) Gen(seed int64, tier string, emit func(any)) {
 			cc := c
 			emit(c28Case{Progs: []c28Prog{{Chain: &cc}}, Yield: int64(rng.Intn(3)) * rng.Int63n(1<<30)})
 		})
+	}
+	// nested programs with a known fork tree: the fixed shapes, then random ones,
+	// alone and in concurrent batches
+	for i, t := range c28FixedTrees() {
+		emit(c28Case{Progs: []c28Prog{{Tree: t}}})
+		emit(c28Case{Progs: []c28Prog{{Tree: t}}, Yield: int64(100 + i)})
+	}
+	nt := 150
+	if tier == "thorough" {
+		nt = 2000
+	}
+	for i := 0; i < nt; i++ {
+		k := 1 + rng.Intn(3)
+		var ps []c28Prog
+		for j := 0; j < k; j++ {
+			if j > 0 && rng.Intn(3) == 0 {
+				ps = append(ps, chain(2+rng.Intn(6)))
+			} else {
+				ps = append(ps, c28Prog{Tree: c28RandBlock(rng, 3)})
+			}
+		}
+		emit(c28Case{Progs: ps, Yield: int64(rng.Intn(2)) * (1 + rng.Int63n(1<<40))})
 	}
 	nb := 250
 	if tier == "thorough" {
